@@ -8,14 +8,15 @@
 //!   get <key> <caller> <one|majority|all|n<k>> [t=<content>] [reg]
 //!                                          caller ids are consecutive from 0 within a history
 //!   found <qid> <peer> <content> [k<key>]  peer 0 = `PeerRecord.peer == None` (attributed to the driver itself);
-//!                                          k<key>: the record of the reply carries that key (default: the query's key)
+//!                                          k<key>: the record of the reply carries that key (default: the query's key);
+//!                                          a reply carrying another key is dropped by accumulate_get_record_found
 //!   finished|notfound|quorumfailed|timeout <qid>
 //!   hangup <caller>                        the caller drops its receiver
 //!   dump                                   canonical view of `pending_get_record`
 //!   merge <content> <content> ...          `handle_split_record_error` on a result map whose `values()` iteration
 //!                                          order is exactly the listed order (choice witness; must be duplicate-free)
 //! Content tokens: x<n> (no header) | h<c|t|r|s|p><n> (header of kind chunk/transaction/register/scratchpad/
-//!   ..WithPayment + undecodable body) | t<id.id...> (transactions) | r<base><g|b>[.op...] (signed register, good/bad
+//!   ..WithPayment + undecodable body) | t<id.id...> (transactions; `3s` = the look-alike of transaction 3: same owner/parents/content/outputs, another signature) | r<base><g|b>[.op...] (signed register, good/bad
 //!   owner signature, ops ascending, op ids >= 6 are signed by a stranger) | s<owner>.<counter>.<variant><g|b> (scratchpad)
 //! Output: get -> `new q<n>` | `join q<n>`; events -> `<ok|dropped|chan>` + ` ; c<caller> <outcome>`*;
 //!   outcome = ok <content> | split <content>=<peer.peer>,... | notenough <content> <expected> <got> | mismatch <content>
@@ -40,7 +41,7 @@ use std::panic::{catch_unwind, AssertUnwindSafe};
 use tokio::sync::oneshot;
 use xor_name::XorName;
 
-const N_TX: usize = 6;
+const N_TX: usize = 6; // transaction bases; each has a look-alike with identical signed fields and another signature
 const N_BASE: usize = 3;
 const N_OPS: usize = 8; // ops 6,7 are signed by a key without write permission
 const STRANGER_FROM: usize = 6;
@@ -93,9 +94,16 @@ fn parse_tok(s: &str) -> Option<Tok> {
             if r.is_empty() {
                 return Some(Tok::Txs(vec![]));
             }
-            let ids: Option<Vec<usize>> = r.split('.').map(|p| dec(p).map(|v| v as usize)).collect();
+            // `b` = transaction 2b, `bs` = its look-alike 2b+1 (same owner/parents/content/outputs, other signature)
+            let ids: Option<Vec<usize>> = r
+                .split('.')
+                .map(|p| match p.strip_suffix('s') {
+                    Some(b) => dec(b).map(|v| 2 * v as usize + 1),
+                    None => dec(p).map(|v| 2 * v as usize),
+                })
+                .collect();
             let ids = ids?;
-            if ids.iter().any(|i| *i >= N_TX) {
+            if ids.iter().any(|i| *i >= 2 * N_TX) {
                 return None;
             }
             Some(Tok::Txs(ids))
@@ -127,6 +135,10 @@ fn parse_tok(s: &str) -> Option<Tok> {
     }
 }
 
+fn tx_dotted(ids: &[usize]) -> String {
+    ids.iter().map(|i| format!("{}{}", i / 2, if i % 2 == 1 { "s" } else { "" })).collect::<Vec<_>>().join(".")
+}
+
 fn dotted<T: ToString>(xs: &[T]) -> String {
     xs.iter().map(|x| x.to_string()).collect::<Vec<_>>().join(".")
 }
@@ -151,13 +163,21 @@ struct Universe {
 impl Universe {
     fn new() -> Self {
         let stranger = SecretKey::random();
-        let mut txs: Vec<Transaction> = (0..N_TX)
-            .map(|i| {
-                let sk = SecretKey::random();
-                Transaction::new(sk.public_key(), vec![], [i as u8; 32], vec![], &sk)
-            })
-            .collect();
-        txs.sort(); // id order = `Ord` order = iteration order of a BTreeSet<Transaction>
+        let mut txs: Vec<Transaction> = vec![];
+        for i in 0..N_TX {
+            let sk = SecretKey::random();
+            let genuine = Transaction::new(sk.public_key(), vec![], [i as u8; 32], vec![], &sk);
+            // the look-alike a misbehaving holder could serve: same signed fields, signature by another key
+            let forged = Transaction::new_with_signature(sk.public_key(), vec![], [i as u8; 32], vec![], stranger.sign(genuine.bytes_for_signature()));
+            txs.push(genuine);
+            txs.push(forged);
+        }
+        // id order = `Ord` order = iteration order of a BTreeSet<Transaction>; a pair shares all fields but the
+        // signature and owners are distinct, so ids 2b and 2b+1 are the two transactions of one base
+        txs.sort();
+        for b in 0..N_TX {
+            assert!(txs[2 * b].owner == txs[2 * b + 1].owner && txs[2 * b] != txs[2 * b + 1], "pairs adjacent");
+        }
         let bases = (0..N_BASE)
             .map(|b| {
                 let sk = SecretKey::random();
@@ -258,7 +278,7 @@ impl Universe {
                     if sort_tx {
                         ids.sort();
                     }
-                    format!("t{}", dotted(&ids))
+                    format!("t{}", tx_dotted(&ids))
                 }
                 None => "?tx".into(),
             },
@@ -576,32 +596,28 @@ impl H {
                 &q.first
             };
             let mut versions: BTreeMap<&[u8], BTreeSet<u64>> = BTreeMap::new();
-            // peers that returned a version in a record carrying the requested key
-            let mut for_key: BTreeMap<&[u8], BTreeSet<u64>> = BTreeMap::new();
+            // `versions`: what peers returned for the requested key; a record under another key is no answer for it
+            let mut any_key: BTreeMap<&[u8], BTreeSet<u64>> = BTreeMap::new();
             for (p, v, k) in &q.replies {
-                versions.entry(v.as_slice()).or_default().insert(*p);
+                any_key.entry(v.as_slice()).or_default().insert(*p);
                 if *k == q.key {
-                    for_key.entry(v.as_slice()).or_default().insert(*p);
+                    versions.entry(v.as_slice()).or_default().insert(*p);
                 }
             }
             match res {
                 Some(Ok(rec)) => {
                     out.count("outcome:ok");
-                    let n_any_key = versions.get(rec.value.as_slice()).map(|s| s.len()).unwrap_or(0);
-                    let n_req_key = for_key.get(rec.value.as_slice()).map(|s| s.len()).unwrap_or(0);
-                    // candidate finding K-d3: replies are counted whatever key their record carries, and the record handed
-                    // over is the completing reply's. Replay judges by the requested key; generation counts the cases.
-                    let foreign = rec.key != key_of(q.key) || (n_any_key >= qval(&cfg.quorum) && n_req_key < qval(&cfg.quorum));
-                    if foreign {
-                        if self.strict {
-                            if rec.key != key_of(q.key) {
-                                out.oracle_fail("ok-for-requested-key", &hist(), &format!("caller {c} asked for key {} and got ok with a record carrying another key (after `{op}`)", q.key));
-                            }
-                        } else {
-                            out.count("oracle:K-d3-restricted(replies counted / returned whatever key their record carries)");
-                        }
+                    let n_any_key = any_key.get(rec.value.as_slice()).map(|s| s.len()).unwrap_or(0);
+                    let n_req_key = versions.get(rec.value.as_slice()).map(|s| s.len()).unwrap_or(0);
+                    // only replies whose record carries the requested key count, and the record handed over carries it
+                    // (former finding K-d3, fixed in /repo by 090e7e0): judged everywhere
+                    if rec.key != key_of(q.key) {
+                        out.oracle_fail("ok-for-requested-key", &hist(), &format!("caller {c} asked for key {} and got ok with a record carrying another key (after `{op}`)", q.key));
                     }
-                    let n = if self.strict { n_req_key } else { n_any_key };
+                    if n_any_key != n_req_key {
+                        out.count("ok:some-peers-returned-the-value-under-another-key");
+                    }
+                    let n = n_req_key;
                     let is_tx = self.uni.tx_ids(&rec.value).is_some();
                     let merged_shape = versions.len() >= 2 && is_tx;
                     if n >= qval(&cfg.quorum) && !merged_shape {
@@ -632,7 +648,7 @@ impl H {
                         out.oracle_fail(
                             "ok-has-quorum",
                             &hist(),
-                            &format!("caller {c} got ok after `{op}` although only {n} distinct peer(s) returned that content{}; its quorum is {}", if self.strict { " for the requested key" } else { "" }, qval(&cfg.quorum)),
+                            &format!("caller {c} got ok after `{op}` although only {n} distinct peer(s) returned that content for the requested key; its quorum is {}", qval(&cfg.quorum)),
                         );
                     }
                 }
@@ -902,7 +918,8 @@ impl H {
                     u.extend(ids.iter().copied());
                 }
             }
-            let want = if u.len() > 1 { format!("some t{}", dotted(&u.iter().copied().collect::<Vec<_>>())) } else { "none".into() };
+            // distinct by ALL fields: a transaction and its look-alike are two
+            let want = if u.len() > 1 { format!("some t{}", tx_dotted(&u.iter().copied().collect::<Vec<_>>())) } else { "none".into() };
             if s != want {
                 out.oracle_fail("split-merge-is-union", line, &format!("transactions: got `{s}`, union of all versions is `{want}`"));
             }
@@ -1003,7 +1020,7 @@ fn corpus() -> Vec<Vec<&'static str>> {
         vec!["reset", "get 0 0 one t=t0.1", "found 0 1 t0.1"],
         vec!["reset", "get 0 0 one t=s0.1.0g", "found 0 1 s0.2.0g"],
         vec!["reset", "get 0 0 one t=s0.1.0g", "found 0 1 s0.1.0g"],
-        // replies whose record carries a key other than the requested one (never compared by the handlers)
+        // replies whose record carries a key other than the requested one are ignored (first two: former finding K-d3)
         vec!["reset", "get 0 0 one", "found 0 1 hc0 k1"],
         vec!["reset", "get 0 0 n2", "found 0 1 hc0 k1", "found 0 2 hc0"],
         vec!["reset", "get 0 0 n2", "found 0 1 hc0", "found 0 2 hc0 k3", "dump"],
@@ -1014,6 +1031,12 @@ fn corpus() -> Vec<Vec<&'static str>> {
         vec!["reset", "get 0 0 one t=r0g.1 reg", "found 0 1 r0g.1 k1"],
         vec!["reset", "get 0 0 n2", "found 0 1 t1", "found 0 2 t0", "found 0 3 t0 k2"],
         vec!["reset", "get 0 0 n2", "found 0 1 hc1 k1", "found 0 2 hc0", "found 0 3 hc0 k2"],
+        // a transaction and a look-alike that differs only in the signature: both paths must keep the two apart
+        vec!["reset", "get 0 0 n2", "found 0 1 t0", "found 0 2 t0s", "found 0 3 t0"],
+        vec!["reset", "get 0 0 n2", "found 0 1 t0s", "found 0 2 t0", "found 0 3 t0"],
+        vec!["reset", "get 0 0 n2", "get 0 1 n2", "found 0 1 t1.2s", "found 0 2 t2.1s", "found 0 3 t3", "found 0 4 t2.1s"],
+        vec!["reset", "get 0 0 n2", "found 0 1 t0", "found 0 2 t0s", "finished 0", "merge t0 t0s", "merge t0s t0"],
+        vec!["reset", "merge t0.1 t0s.1s", "merge t2s t2 t2.2s", "merge t3 t3s.3"],
         // Quorum::N up to the replication factor and beyond: exactly that many distinct peers are needed
         vec!["reset", "get 0 0 n6", "found 0 1 hc0", "found 0 2 hc0", "found 0 3 hc0", "found 0 3 hc0", "found 0 4 hc0", "found 0 5 hc0", "dump", "found 0 6 hc0"],
         vec!["reset", "get 0 0 n6", "found 0 1 hc0", "found 0 2 hc0", "found 0 3 hc0", "found 0 4 hc0", "found 0 5 hc0", "finished 0"],
@@ -1027,7 +1050,7 @@ fn corpus() -> Vec<Vec<&'static str>> {
 fn pool(rng: &mut Rng, fam: u64) -> Vec<String> {
     let cands: Vec<&str> = match fam {
         0 | 1 => vec!["hc0", "hc1", "hc2", "x0", "hp0"],
-        2 => vec!["t0", "t1", "t0.1", "t2.3", "t1.0", "t", "ht0", "t4"],
+        2 => vec!["t0", "t1", "t0.1", "t2.3", "t1.0", "t", "ht0", "t4", "t0s", "t1s", "t0.0s", "t1s.0", "t4s"],
         3 => vec!["r0g.0", "r0g.1", "r0g.0.1", "r0b.0", "r0g.2.6", "r1g.0", "r0g", "hr0", "r0g.3.4"],
         4 => vec!["s0.1.0g", "s0.2.0g", "s0.2.1g", "s0.3.0b", "s1.2.0g", "hs0", "s0.3.1g"],
         _ => vec!["hc0", "t0", "t1.2", "r0g.0", "s0.1.0g", "x1", "r0g.1"],
@@ -1073,8 +1096,8 @@ fn gen_saturation(h: &mut H, rng: &mut Rng, out: &mut Out) {
     for c in 0..ncallers {
         run_line(h, out, &format!("get 0 {c} {q}"));
     }
-    let main = *rng.pick(&["hc0", "t0.1", "r0g.0", "s0.1.0g", "x0"]);
-    let other = *rng.pick(&["hc1", "t2", "r0g.1", "s0.2.0g", "x1"]);
+    let main = *rng.pick(&["hc0", "t0.1", "r0g.0", "s0.1.0g", "x0", "t0"]);
+    let other = *rng.pick(&["hc1", "t2", "r0g.1", "s0.2.0g", "x1", "t0s"]);
     let distinct = rng.below(9);
     let mut peers: Vec<u64> = (0..9).collect();
     rng.shuffle(&mut peers);
@@ -1270,7 +1293,7 @@ fn gen_history(h: &mut H, rng: &mut Rng, out: &mut Out) {
     if rng.chance(1, 2) {
         let fam2 = if rng.chance(3, 4) { rng.range(2, 4) } else { 5 };
         let cands: Vec<&str> = match fam2 {
-            2 => vec!["t0", "t1", "t0.1", "t2.3", "t1.0", "t", "ht0", "t4", "t1.1"],
+            2 => vec!["t0", "t1", "t0.1", "t2.3", "t1.0", "t", "ht0", "t4", "t1.1", "t0s", "t1s", "t0.0s", "t1s.1", "t4s"],
             3 => vec!["r0g.0", "r0g.1", "r0g.0.1", "r0b.0", "r0g.2.6", "r1g.0", "r0g", "hr0", "r0g.3.4", "r1g.1.2", "r0b.5"],
             4 => vec!["s0.1.0g", "s0.2.0g", "s0.2.1g", "s0.3.0b", "s1.2.0g", "hs0", "s0.3.1g", "s1.3.0b"],
             _ => vec!["hc0", "t0", "t1.2", "r0g.0", "s0.1.0g", "x1", "r0g.1", "hp0", "t0.3", "s0.2.0g"],
